@@ -154,7 +154,7 @@ class CallMixin:
         if name in LIBC_PASS:
             self.helpers.add(LIBC_PASS[name])
             return f'{LIBC_PASS[name]}({", ".join(self.ex(a) for a in args)})'
-        if name in ('fill', 'copy', 'equal', 'fill_n', 'copy_n', 'reverse', 'all_of', 'any_of', 'find', 'count', 'remove_if', 'find_if'):
+        if name in ('fill', 'copy', 'equal', 'fill_n', 'copy_n', 'reverse', 'all_of', 'any_of', 'find', 'count', 'remove_if', 'find_if', 'sort'):
             return self.std_algorithm(name, n, args)
         if name in ('move', 'forward') and len(args) == 1:
             return self.ex(args[0])
@@ -266,6 +266,23 @@ class CallMixin:
             self.pre.append(f'{self.ctype(a0t)} {r} = {last};')
             self.pre.append(f'for ({self.ctype(a0t)} {it} = {first}; {it} != {last}; ++{it}) {{ if ({call}) {{ {r} = {it}; break; }} }}')
             return r
+        if name == 'sort' and len(args) == 3 and self.is_lambda_arg(args[2]):
+            # std::sort with a comparator lambda: modelled by insertion sort with that comparator (a sorted permutation of the range;
+            # std::sort is not stable either, and nothing under contract depends on the order of equivalent elements)
+            lam = self.lambda_fn(self.strip_to_lambda(args[2]))
+            if self.cond_depth:
+                raise LoweringError('std::sort in a conditional operand')
+            first = self.hoist(a0t, self.ex(args[0]))
+            last = self.hoist(a0t, self.ex(args[1]))
+            i, j, tmp = self.tmp('__si'), self.tmp('__sj'), self.tmp('__sx')
+            def arg(k, e):
+                return e if lam['ptypes'][k].is_ref() else '*' + e
+            call = f'{lam["cname"]}({", ".join(lam["captures"] + [arg(0, j), arg(1, "(" + j + " - 1)")])})'
+            self.cur['loops'] += 2
+            self.pre.append(f'for ({self.ctype(a0t)} {i} = {first}; {i} != {last}; ++{i}) {{ for ({self.ctype(a0t)} {j} = {i}; {j} != {first} && {call}; --{j}) '
+                            f'{{ {self.ctype(et)} {tmp} = *{j}; *{j} = *({j} - 1); *({j} - 1) = {tmp}; }} }}')
+            self.models_used.add('std::sort(first, last, comparator) -> insertion sort with the same comparator') if hasattr(self, 'models_used') else None
+            return '((void)0)'
         raise LoweringError(f'std::{name} form not modelled in {self.cur["name"]}')
 
     def strip_to_lambda(self, a):
@@ -386,6 +403,10 @@ class CallMixin:
             if m in ('data', 'begin', 'cbegin', 'c_str'):
                 return f'{obj}.p'
             if m in ('end', 'cend'):
+                if fam == 'vector' and et.kind == 'rec':
+                    # vectors of records may be value-initialised (p == 0, n == 0) by the map model: begin() + 0 of an empty
+                    # vector is valid C++, but NULL + 0 is flagged by CBMC's pointer check
+                    return f'(({obj}.n) ? {obj}.p + {obj}.n : {obj}.p)'
                 return f'({obj}.p + {obj}.n)'
             if m == 'empty':
                 return f'({obj}.n == 0)'
